@@ -550,6 +550,54 @@ def w_width_prologue(ck, F):
     # zero-width: skip_bits(0) leaves the position unchanged by rule A's form bits_read += bits_to_skip
 
 
+def u_umv_code(ck, F):
+    ck.rule('U', 'read_umv decodes Table D.3/H.263: "1" -> 0; otherwise pairs of bits are read while bulk < 4096: 00 ends with +(mantissa + bulk), 10 ends with '
+                 '-(mantissa + bulk), 01 continues with mantissa := mantissa << 1, 11 continues with mantissa := (mantissa << 1) | 1 (bulk doubling: C01.M11)')
+    from ..dataflow import _expr_rv
+    name = RD + 'read_umv'
+    try:
+        b = F.body(name)
+    except (KeyError, Unanalysable) as e:
+        ck.violation('U', 'U : read_umv : missing', None, str(e)); return
+    g = cfg_of(b); D = defs_of(b)
+    names = {v: int(k) for k, v in b.get('debug', {}).items()}
+    loops = g.loops()
+    if 'bulk' not in names or 'mantissa' not in names or len(loops) != 1:
+        ck.violation('U', 'U : read_umv : anchors', where_of(b), 'locals bulk / mantissa or the single loop not found'); return
+    Bk, M = names['bulk'], names['mantissa']
+    h, body = next(iter(loops.items()))
+    pair = ('fld', ('call', '<std::result::Result<T, E> as std::ops::Try>::branch', ('call', 'parser::reader::H263Reader::<R>::read_bits', ('param', 1, ()), ('c', 2))), (('as', 0), 0))
+    sw = [bb for bb in body if g.blocks[bb]['term']['t'] == 'switch' and expr_of(F, b, g.blocks[bb]['term']['on']) == pair]
+    if len(sw) != 1:
+        ck.violation('U', 'U : read_umv : pair switch', where_of(b), 'no single match on read_bits(2) inside the loop (found %d)' % len(sw)); return
+    t = g.blocks[sw[0]]['term']
+    arms = {int(v): to for v, to in t['arms']}
+    if sorted(arms) != [0, 1, 2, 3]:
+        ck.violation('U', 'U : read_umv : arms', where_of(b, sw[0]), 'the match has arms %s, expected 0..3' % sorted(arms)); return
+    def arm_of(bb):
+        ds = [v for v, to in arms.items() if g.dominates(to, bb)]
+        return ds[0] if len(ds) == 1 else None
+    mb = ('op', 'Add', ('multi', M), ('multi', Bk)); mb2 = ('op', 'Add', ('multi', Bk), ('multi', M))
+    def fu(x): return ('agg', 'Ok', ('call', 'types::HalfPel::from_unit', x))
+    want = {0: ('ret', (fu(mb), fu(mb2))), 2: ('ret', (fu(('un', 'Neg', mb)), fu(('un', 'Neg', mb2)))),
+            1: ('m', (('op', 'Shl', ('multi', M), ('c', 1)),)), 3: ('m', (('op', 'BitOr', ('op', 'Shl', ('multi', M), ('c', 1)), ('c', 1)), ('op', 'BitOr', ('c', 1), ('op', 'Shl', ('multi', M), ('c', 1)))))}
+    got = {}
+    for d in D.defs.get(0, []):
+        if d[0] == 'assign' and arm_of(d[1]) is not None: got.setdefault(arm_of(d[1]), []).append(('ret', _expr_rv(F, b, d[3]['rv'], 0, {})))
+    for d in D.defs.get(M, []):
+        if d[0] == 'assign' and d[1] in body and arm_of(d[1]) is not None: got.setdefault(arm_of(d[1]), []).append(('m', _expr_rv(F, b, d[3]['rv'], 0, {})))
+    bad = []
+    for v in (0, 1, 2, 3):
+        gv = got.get(v, [])
+        if len(gv) != 1 or gv[0][0] != want[v][0] or gv[0][1] not in want[v][1]:
+            bad.append('pair %s: %s' % (format(v, '02b'), [(k, expr_str(e, b.get('debug', {}))) for k, e in gv] or 'nothing'))
+    # the start bit
+    first = [d for d in D.defs.get(0, []) if d[0] == 'assign' and d[1] not in body and not g.dominates(h, d[1]) and _expr_rv(F, b, d[3]['rv'], 0, {}) == fu(('c', 0))]
+    if len(first) != 1: bad.append('the "1" code does not return from_unit(0) before the loop')
+    if bad: ck.violation('U', 'U : read_umv : Table D.3', where_of(b, sw[0]), '; '.join(bad))
+    else: ck.ok('U', 'read_umv: 1 -> 0; pairs 00 -> +(m + b), 10 -> -(m + b), 01 -> m << 1, 11 -> (m << 1) | 1', where_of(b, sw[0]))
+
+
 def f_start_code(ck, F):
     ck.rule('F', 'start-code scan: the compared window is always peek_bits(17); Some(k) is returned only on window == 1; each iteration skips exactly one '
                  'bit and increments k by one; None is returned only when !in_error and k > realignment_bits()')
@@ -724,5 +772,13 @@ def run(ck, F, tier):
     e_helper_forms(ck, F)
     h_msb_first(ck, F)
     w_width_prologue(ck, F)
+    u_umv_code(ck, F)
     f_start_code(ck, F)
     g_vlc(ck, F)
+    # "failed transactions / look-aheads consume nothing" also for NESTED wrappers: an inner wrapper must not invalidate the checkpoint of an outer one - nothing
+    # but the decode closure commits, and nothing but commit drops buffered bytes or rewinds the position (C05's rule T5, re-run here)
+    from ..report import Scoped as _Scoped
+    c05.t5_reader_fields(_Scoped(ck, 'C05.'), F)
+    # "reading past the end reports end-of-data without consuming" - and without leaving anything behind: a byte enters the buffer only after read_exact has
+    # delivered it (C05's rule T6: a local 1-byte buffer, pushed on the success edge), so a failed fill cannot leave a phantom byte a later read would hand out
+    c05.t6_retry_granularity(_Scoped(ck, 'C05.'), F)
